@@ -1690,9 +1690,12 @@ def replace_for_loops_with_set_list_comp(source: str) -> str:
                 replacement = ast.Call(func=ast.Name(id="sum"), args=[comprehension], keywords=[])
 
             try:
-                if not core.literal_value(value):
+                start = core.literal_value(value)
+                # Only the int 0 and the empty list can be left out: "" + .., 0.0 + .. and None + ..
+                # are something else than the sum or the list
+                if (type(start) is int and start == 0) or (isinstance(value, ast.List) and start == []):
                     if isinstance(body_node.op, ast.Sub):
-                        replacement = ast.UnaryOp(op=body_node.op, operand=replacement)
+                        replacement = ast.UnaryOp(op=ast.USub(), operand=replacement)
                     yield value, replacement, transaction
                     yield n2, None, transaction
                     continue
